@@ -398,3 +398,44 @@ func (n *Node) DecodeRawFields(raw []RawRow, only []string) []Row {
 	sort.Slice(rows, func(i, j int) bool { return fmt.Sprint(rows[i]) < fmt.Sprint(rows[j]) })
 	return rows
 }
+
+// RawQueryStats is RawQuery that also returns the query's statistics
+// (*common.QueryStats for table and cluster queries).
+func (n *Node) RawQueryStats(sql string, includeMem bool, timeout time.Duration) ([]RawRow, interface{}, error) {
+	src, err := n.DB.Query(sql, false, nil, includeMem)
+	if err != nil {
+		return nil, nil, err
+	}
+	ctx, cancel := context.WithTimeout(context.Background(), timeout)
+	defer cancel()
+	var names []string
+	var rows []RawRow
+	var stats interface{}
+	tick := n.Opts.Tick()
+	iterate := func() error {
+		st, err := src.Iterate(ctx, func(f core.Fields) error {
+			names = f.Names()
+			return nil
+		}, func(row *core.FlatRow) (bool, error) {
+			dims := bytemap.ByteMap(row.Key).AsMap()
+			r := RawRow{Key: KeyString(dims), Per: int64(time.Unix(0, row.TS).Sub(Epoch) / tick), Vals: map[string]float64{}, Dims: dims}
+			for i, v := range row.Values {
+				if i < len(names) {
+					r.Vals[names[i]] = v
+				}
+			}
+			rows = append(rows, r)
+			return true, nil
+		})
+		stats = st
+		return err
+	}
+	errCh := make(chan error, 1)
+	go func() { errCh <- iterate() }()
+	select {
+	case err = <-errCh:
+	case <-time.After(timeout + 5*time.Second):
+		return nil, nil, fmt.Errorf("query did not return within %v", timeout+5*time.Second)
+	}
+	return rows, stats, err
+}
